@@ -417,6 +417,12 @@ func resourceJSONV1(r *Resource) map[string]any {
 // Everything else of ResourceCorpus is expressible for and accepted by the root generator.
 func (s *Schema) ForV1() []string {
 	var notes []string
+	for _, n := range s.Types {
+		if n.Kind == "typeref" && n.Custom {
+			n.Custom = false
+			notes = append(notes, n.Full()+": generated as an ordinary typeref (the root generator has no custom typerefs)")
+		}
+	}
 	for _, r := range s.Resources {
 		for i := range r.Methods {
 			m := &r.Methods[i]
